@@ -15,16 +15,24 @@ Scenario lines (see lean/DesperModel/Loop.lean for the model's reading of the sa
     op load <h>                                     handle()
     op switch <h> <cc> <cn>                         loop.switch(handle, cc, cn) from the test program
     op start                                        loop.start(); the following `frame` lines are the
-    frame <reading> <act> ; <act> ; ...             clock readings (integers, see `clock`) and what processor
-                                                    0, 1, .. does in the frame that consumed the reading
+    frame <r>[/<alt>] <pact> ; <pact> ; ...         clock readings (integers, see `clock`: r is what time
+                                                    function 0 returns for this iteration, alt what time
+                                                    function 1 returns) and what processor 0, 1, .. does
+                                                    in the frame that consumed the reading
     act ::= none | switch h cc cn | rswitch h cc cn | quit | quitto h | rquit | rother
+    pact ::= act | lswitch h cc cn | setclock k | peek      processors only: loop.switch(handle, cc, cn)
+                                                    called directly (no exception), loop.time_function =
+                                                    <time function k>, reading loop.current_world
 
 Observations:
     load <h>#<n> | ev <inst> <event> <args> | frame <inst> <dt> | proc <inst> <p> <dt>
     | ret <outcome> running=<0|1> current=<inst|None> handle=<h|None>     (after start)
     | res <outcome> current=.. handle=..                                    (after load / switch)
+    | tick <reading> ...  (the loop read the clock; the fields after the reading are implementation only)
+    | peek <inst|None>    (a processor read loop.current_world)
     implementation only (read by the C14 oracle, never compared with the model):
-    start | tick <reading> current=.. handle=.. | tick end | do <kind> current=.. handle=.. [tgt=<inst> en=<0|1>]
+    start | tick <reading> fn=<k> installed=<k'> current=.. handle=.. | tick end
+    | do <kind> current=.. handle=.. [tgt=<inst> en=<0|1>]
 """
 from fractions import Fraction
 
@@ -87,7 +95,8 @@ def parse(lines):
             else:
                 raise ValueError(ln)
         elif t[0] == 'frame':
-            ops[-1][1].append((int(t[1]), parse_acts(t[2:])))
+            r, _, alt = t[1].partition('/')
+            ops[-1][1].append((int(r), int(alt or r), parse_acts(t[2:])))
         else:
             raise ValueError(f'bad scenario line {ln!r}')
     return handles, reacts, ops
@@ -139,17 +148,21 @@ class Run:
         self.frames = []
         self.cur_acts = []
         self.handles = []
-        self.loop = desper.SimpleLoop(self.time_function)
+        self.tfs = [self.make_time_function(0), self.make_time_function(1)]
+        self.loop = desper.SimpleLoop(self.tfs[0])
 
-    # ---- the scenario's time function
-    def time_function(self):
-        if not self.frames:
-            self.obs.append('tick end')
-            raise ClockExhausted()
-        reading, acts = self.frames.pop(0)
-        self.cur_acts = acts
-        self.obs.append(f'tick {reading} {self.where()}')
-        return self.to_clock(reading)
+    # ---- the scenario's time functions (two distinct callables reading the same frame list)
+    def make_time_function(self, k):
+        def time_function():
+            installed = next((j for j, f in enumerate(self.tfs) if f is self.loop.time_function), '?')
+            if not self.frames:
+                self.obs.append('tick end')
+                raise ClockExhausted()
+            frame = self.frames.pop(0)
+            self.cur_acts = frame[2]
+            self.obs.append(f'tick {frame[k]} fn={k} installed={installed} {self.where()}')
+            return self.to_clock(frame[k])
+        return time_function
 
     def frame_act(self, p):
         return self.cur_acts[p] if p < len(self.cur_acts) else ['none']
@@ -186,6 +199,12 @@ class Run:
             target = self.handles[int(a[1])]()
             self.mark('quit', target)
             desper.quit_loop(target)
+        elif k == 'lswitch':
+            self.loop.switch(self.handles[int(a[1])], bool(int(a[2])), bool(int(a[3])))
+        elif k == 'setclock':
+            self.loop.time_function = self.tfs[int(a[1])]
+        elif k == 'peek':
+            self.obs.append(f'peek {self.inst(self.loop.current_world)}')
         elif k == 'rquit':
             self.mark('rquit')
             raise desper.Quit()
